@@ -172,7 +172,7 @@ theorem center_poolD_corr (p : ℕ) (rows : List (List ℝ)) (hne : rows ≠ [])
     intro r _
     exact applyD_corrF r
   rw [h1, ← poolD_cosine]
-  unfold applyD shiftF
+  unfold applyD shiftF Rsa.Gen.C07.corrShift
   rw [center_map_sub_const]
   exact center_of_mean_zero _ (mean_poolD_cosine_centered p rows hne hlen)
 
